@@ -18,12 +18,13 @@
 (***************************************************************************)
 EXTENDS Naturals, Integers, Sequences, FiniteSets, TLC, SequencesExt, FiniteSetsExt, Functions, Json
 
-CONSTANTS MaxSrc, MaxTgt, Aggs, Modes, KeyShapes
+CONSTANTS MaxSrc, MaxTgt, Aggs, Modes, KeyShapes,
+          NegVals      \* FALSE: source values {0, 2, null}; TRUE: {0, -1, null} (order aggregates meet a negative value after a zero)
 
 Null == <<"n">>
 I(k) == <<"i", k>>
 Keys == {I(1), I(2), Null}
-Vals == {I(0), I(2), Null}        \* 0 is there on purpose: a falsy running aggregate
+Vals == (IF NegVals THEN {I(0), I(0 - 1)} ELSE {I(0), I(2)}) \cup {Null}        \* 0 is there on purpose: a falsy running aggregate
 AllAggs == {"sum", "avg", "median", "min", "max", "first", "last", "count", "counters", "set", "array", "any"}
 
 SrcRow == [k : Keys, v : Vals]
